@@ -1047,36 +1047,6 @@ def entryArrs : String × Node → List Arr
   | (_, .morph a) => [a]
   | (_, .cell ch) => ch.map (·.2)
 
-/-- a root child the loader reads as intended -/
-def GoodEntry : String × Node → Prop
-  | (_, .morph _) => True
-  | (_, .cell ch) => ∃ nm a, ch = [(nm, a)] ∧ nm ≠ "vertices"
-
-theorem nodeMorphs_good (e : String × Node) (h : GoodEntry e) : nodeMorphs e = .ok (entryArrs e) := by
-  obtain ⟨nm, nd⟩ := e
-  cases nd with
-  | morph a => rfl
-  | cell ch =>
-    obtain ⟨cn, a, rfl, hne⟩ := h
-    simp [nodeMorphs, entryArrs, hne]
-
-theorem concatE_good : ∀ L : H5, (∀ e ∈ L, GoodEntry e) →
-    concatE (L.map nodeMorphs) = .ok (L.flatMap entryArrs) := by
-  intro L
-  induction L with
-  | nil => intro _; rfl
-  | cons e es ih =>
-    intro h
-    simp only [List.map_cons, nodeMorphs_good e (h e (by simp)), concatE, ih (fun x hx => h x (by simp [hx])),
-      List.flatMap_cons]
-
-theorem load_good (f : H5) (h : ∀ e ∈ f, GoodEntry e) :
-    load f = .ok ((f.mergeSort nameLe).flatMap entryArrs) := by
-  unfold load
-  apply concatE_good
-  intro e he
-  exact h e ((List.mergeSort_perm f nameLe).mem_iff.mp he)
-
 theorem cellEntries_arrs : ∀ cs k, (cellEntries k cs).flatMap entryArrs = cs.map (·.morph.arr) := by
   intro cs; induction cs with
   | nil => intro k; rfl
@@ -1089,38 +1059,6 @@ theorem morphEntries_arrs : ∀ ms k, (morphEntries k ms).flatMap entryArrs = ms
 theorem entries_arrs (d : Doc) : (entries d).flatMap entryArrs = docArrs d := by
   unfold entries docArrs
   rw [List.flatMap_append, cellEntries_arrs, morphEntries_arrs]
-
-theorem cellEntries_good : ∀ cs k, (∀ c ∈ cs, c.morph.id ≠ some "vertices") →
-    ∀ e ∈ cellEntries k cs, GoodEntry e := by
-  intro cs; induction cs with
-  | nil => intro k _ e he; simp [cellEntries] at he
-  | cons c cs ih =>
-    intro k h e he
-    simp only [cellEntries, List.mem_cons] at he
-    rcases he with rfl | he
-    · refine ⟨_, _, rfl, ?_⟩
-      have := h c (by simp)
-      cases hid : c.morph.id with
-      | none =>
-        simp only [dflt]
-        intro e
-        have : ("Morphology" ++ toString k).length = "vertices".length := by rw [e]
-        simp [String.length_append] at this
-        have h8 : "Morphology".length = 10 := by decide
-        have h9 : "vertices".length = 8 := by decide
-        omega
-      | some s => simp only [dflt]; intro e; subst e; exact this hid
-    · exact ih (k + 1) (fun c hc => h c (by simp [hc])) e he
-
-theorem morphEntries_good : ∀ ms k, ∀ e ∈ morphEntries k ms, GoodEntry e := by
-  intro ms; induction ms with
-  | nil => intro k e he; simp [morphEntries] at he
-  | cons m ms ih =>
-    intro k e he
-    simp only [morphEntries, List.mem_cons] at he
-    rcases he with rfl | he
-    · trivial
-    · exact ih (k + 1) e he
 
 /-! the pre-repair writer fails on every document that has a stand-alone morphology -/
 
